@@ -64,7 +64,7 @@ void h_inc_aggregate(void) {
     len = alen;
     if (oneshot) ret = secp256k1_schnorrsig_aggregate(&ctx, use_agg ? aggsig : NULL, use_len ? &len : NULL, use_pk ? pks : NULL, use_msgs ? msgs : NULL, use_sigs ? sigs : NULL, nnew);
     else ret = secp256k1_schnorrsig_inc_aggregate(&ctx, use_agg ? aggsig : NULL, use_len ? &len : NULL, use_pk ? pks : NULL, use_msgs ? msgs : NULL, use_sigs ? sigs : NULL, nb, nnew);
-#ifndef C17_NBOUND
+#if !defined(C17_NBOUND) && !defined(C17_EARLY)
     WITNESS_BUF(aggw, aggsig, alen, 64);
 #endif
 
